@@ -429,6 +429,80 @@ def j10(led, rid, ctx):
                   "nogood (e.g. a blocking clause) is never enforced" % show(e)[:80])
 
 
+def j13(led, rid, ctx):
+    """removing a nogood's watcher removes exactly the watcher with that nogood id AND that right-hand
+    side: the selecting closure is decided on all 16 combinations of (same id?, same value?) against
+    the way it is used (position/find: true ⇔ match; retain: true ⇔ keep ⇔ no match)"""
+    import itertools
+    from ..symexec import SymExec
+    from ..predalg import ev, Unknown
+    lib = ctx.lib
+    n = 0
+    for f in lib.fns.values():
+        if "nogood_watching" not in f.file or f.kind == "Closure" or "/tests" in f.file:
+            continue
+        if not (f.name.startswith("remove_") or f.name.startswith("find_and_remove")):
+            continue
+        R = resolver(f)
+        for c in f.calls:
+            if c.name not in ("position", "retain", "find", "rposition", "retain_mut") or len(c.args) < 2:
+                continue
+            clo = [x for x in R.operand(c.args[1]).walk() if x.k == "closure"]
+            if not clo:
+                continue
+            g = lib.fns.get(clo[0].a)
+            if g is None:
+                continue
+            paths = [p for p in SymExec(g).run() if not p.diverged and p.ret is not None]
+            mode = "keep" if c.name.startswith("retain") else "match"
+            n += 1
+            bad = None
+            try:
+                for same_id, same_val in itertools.product((0, 1), (0, 1)):
+                    def leaf(x):
+                        x = peel(x, calls=None)
+                        if x.k == "call" and x.a.name in ("eq", "ne") and len(x.b) == 2:
+                            s_ = show(x)
+                            v = same_id if "nogood_id" in s_ else same_val if "right_hand_side" in s_ else None
+                            if v is None:
+                                return None
+                            return v if x.a.name == "eq" else 1 - v
+                        return None
+
+                    def cmpv(cond):
+                        c_ = peel(cond, calls=None)
+                        if c_.k == "binop" and c_.a in ("Eq", "Ne"):
+                            s_ = show(c_)
+                            v = same_id if "nogood_id" in s_ else same_val if "right_hand_side" in s_ else None
+                            if v is not None:
+                                return v if c_.a == "Eq" else 1 - v
+                        return ev(cond, leaf)
+                    res = set()
+                    for p in paths:
+                        ok = True
+                        for cond, val, others in p.conds:
+                            w = cmpv(cond)
+                            if (val is not None and w != val) or (val is None and others and w in others):
+                                ok = False
+                        if ok:
+                            res.add(bool(cmpv(p.ret)))
+                    match = bool(same_id and same_val)
+                    want = match if mode == "match" else (not match)
+                    if res != {want}:
+                        bad = ("for a watcher with %s nogood id and %s right-hand side the %s closure answers %s"
+                               % ("the same" if same_id else "another", "the same" if same_val else "another",
+                                  c.name, sorted(res)))
+                        break
+            except Unknown as u:
+                bad = "its selecting closure cannot be evaluated (%s)" % u
+            led.check(bad is None, rid, "%s:%s-selects-exactly-the-watcher" % (f.name, c.name), c.span,
+                      "id AND value identify the watcher",
+                      "NogoodWatchList::%s: %s — deleting one nogood also detaches other nogoods that watch the same "
+                      "predicate (e.g. permanent blocking clauses), or leaves the deleted one attached"
+                      % (f.name, bad))
+    led.floor(rid, "watcher removal selections", n, 1)
+
+
 def run(ctx, led):
     run_rule(led, "J1", "a nogood is deleted only if not propagating, after both watchers are removed; "
              "freed ids are reused only when storing", j1, ctx)
@@ -448,3 +522,4 @@ def run(ctx, led):
     run_rule(led, "J12", "conflict resolution returns in the Solving state also when nothing was learned (shared with C02-U23)", _C02.u23, ctx)
     from . import kernel as _kernel
     _kernel.run_bundle(led, ctx, "J")
+    run_rule(led, "J13", "watcher removal selects exactly the watcher with that nogood id and right-hand side", j13, ctx)
